@@ -285,7 +285,30 @@ def _gen_oracle_ops(name, v, n, d):
     return g(v, n)
 
 
-def _alt_lean(confs, path_ok=None):
+def _c05_examples(confs, seed):
+    """one leaf Sid per generated configuration (the longest types first) for which the DRIVER says that every
+    hypothesis of C05 holds (Spec.admissibleB) and that the model renders the given path: the kernel then re-checks
+    it and applies C05.c05_roundtrip_B — the theorem instantiated on the generated configuration"""
+    out = {}
+    for i, c in enumerate(confs):
+        rng = random.Random("C20/%s/%d/c05ex" % (seed, i))
+        v = gen.Vocab(c, rng)
+        cfg = c["conf"]["default_path"] or c["conf"]["paths"][0]["name"]
+        cands = sorted(families.concrete_path_sids(v, 30), key=lambda x: -len(x[2]))[:12]
+        ask = [{"op": "sid_call", "from": {"s": s}, "m": "path", "config": cfg} for _, s, _ in cands]
+        paths = [a.get("ok") for a in core.run_model(c, ask)]
+        chk = [{"op": "c05_admissible", "from": {"s": s}, "config": cfg, "path": p or ""} for (_, s, _), p in zip(cands, paths)]
+        oks = [a.get("ok") for a in core.run_model(c, chk)]
+        typed = core.run_model(c, [{"op": "sid", "s": s} for _, s, _ in cands])
+        for (label, s, fields), p, ok, ty in zip(cands, paths, oks, typed):
+            t_ok = ty.get("ok") or {}
+            if ok is True and p and t_ok.get("type") == label:
+                out[i] = {"config": cfg, "s": s, "type": label, "fields": [list(f) for f in fields], "path": p}
+                break
+    return out
+
+
+def _alt_lean(confs, path_ok=None, examples=None):
     """render the generated configurations as Lean and state their well-formedness obligations"""
     gen_dir = os.path.join(core.LEAN, "Spil", "Generated")
     names = []
@@ -298,7 +321,7 @@ def _alt_lean(confs, path_ok=None):
         names.append(name)
     lines = ["/- GENERATED on every C20 run: kernel-checked conventions of the generated configurations -/"]
     lines += ["import Spil.Generated.Alt%d" % i for i in range(len(confs))]
-    lines += ["import Spil.Spec.Sid", "import Spil.Spec.PathWF", "import Spil.Props.Tie", "open Generated", "namespace AltWF"]
+    lines += ["import Spil.Spec.Sid", "import Spil.Spec.PathWF", "import Spil.Props.Tie", "import Spil.Props.C05c", "open Generated", "namespace AltWF"]
     for i, (n, c) in enumerate(zip(names, confs)):
         lines.append("theorem %s_wf : Spec.sidHierOk %sEnv %sConf.sid.templates = true := by decide +kernel" % (n, n, n))
         lines.append("theorem %s_compile : Tie.compiled %sSidTemplates = %sSidRegexes := by decide +kernel" % (n, n, n))
@@ -315,6 +338,17 @@ def _alt_lean(confs, path_ok=None):
                 lines.append("theorem %s_tpls : Spec.pathTplsOk %sEnv %s = true := by decide +kernel" % (pn, n, pn))
             if ok and ok[1]:
                 lines.append("theorem %s_exclusive : Spec.pathsExclusive %sEnv %sConf.sid.searchSymbols %s = true := by decide +kernel" % (pn, n, n, pn))
+        ex = (examples or {}).get(i)
+        okp = (path_ok or {}).get((i, ex["config"])) if ex else None
+        if ex and okp and okp[1] and okp[2]:
+            pn = "%sPath_%s" % (n, ex["config"])
+            L = gen_lean
+            lines.append("/-- `%s:%s` and its path `%s` under the generated configuration -/" % (ex["type"], ex["s"].replace("-/", "- /"), ex["path"].replace("-/", "- /")))
+            lines.append("def %s_x : Sid := ⟨%s, %s, %s⟩" % (n, L.lstr(ex["s"]), L.lstr(ex["type"]), L.ldict(ex["fields"])))
+            lines.append("def %s_p : Str := %s" % (n, L.lstr(ex["path"])))
+            lines.append("theorem %s_c05_example : (Ctx.mk %sConf %sEnv).sidOfPath %s_p (some %s) = .ok %s_x :=" % (n, n, n, n, L.lstr(ex["config"]), n))
+            lines.append("  C05.c05_roundtrip_B (Ctx.mk %sConf %sEnv) (some %s) %s (by decide +kernel) %s_tpls %s_exclusive %s_x %s_p (by decide +kernel) (by decide +kernel)"
+                         % (n, n, L.lstr(ex["config"]), pn, pn, pn, n, n))
     lines.append("end AltWF")
     path = os.path.join(gen_dir, "AltWF.lean")
     text = "\n".join(lines) + "\n"
@@ -387,7 +421,9 @@ def oracle_C20(run, n, fams=None, oracles=None, tag="C20", kernel=True):
             run.notes.append("generated configuration %d: path configurations %r do not follow pathTplsOk / pathsExclusive: C05 is not PROVED "
                              "for them" % (specs[i], [n_ for n_, wf, excl, tpls in a if not (tpls and excl)]))
     if kernel:
-        thms = _alt_lean(confs[:k], path_ok)
+        examples = _c05_examples(confs[:k], run.seed)
+        stats["c05_theorem_instances"] = len(examples)
+        thms = _alt_lean(confs[:k], path_ok, examples)
         ok, out = core.lake_build(["Spil.Generated.AltWF"])
         run.cov["obligations"] = run.cov.get("obligations", 0) + len(thms)
         if ok:
